@@ -117,7 +117,7 @@ def run_case(case):
         # branches (0.3 as float32 is > 0.3 as double) and the derivative may jump there; C09/C17 probe those points in float32
         X, special = zoo.gen_inputs(b, n, case["seed"] + 1, 0.0, 1.0, dom=case["dom"])
         if case["dom"] == "R":
-            X = X * [1.0, 1.0, 3.0, 8.0][case["seed"] % 4]
+            X = X * [1.0, 3.0, 8.0, 8.0][case["seed"] % 4]
         X = X.clamp(-10, 10)
         C = zoo.gen_context(b, ctxk, n, case["seed"]) if ctxk is not None else None
         inverse = case["direction"] == "inverse" and b.invertible and not b.inv_via_forward
